@@ -28,6 +28,7 @@ fn streams(t: Tier) -> Vec<StreamDef> {
         st("avp_lengths", t.n(7052, 7052, 60, 7052), true),
         st("flagwords", t.n(65536, 65536, 0, 65536), true),
         st("big", t.n(320, 8000, 0, 320), false),
+        st("reveal", t.n(20_000, 1_000_000, 80, 8_000), false),
     ]
 }
 
@@ -35,7 +36,7 @@ fn floors(t: Tier) -> Vec<(String, u64)> {
     if t == Tier::Miri {
         return vec![("unchecked.requests".into(), 50)];
     }
-    let mut f = vec![("unchecked.requests".into(), 50_000), ("readers.compared".into(), 10_000), ("sub.readers".into(), 1000), ("bytes.refused_or_served".into(), 1000)];
+    let mut f = vec![("unchecked.requests".into(), 50_000), ("readers.compared".into(), 10_000), ("sub.readers".into(), 1000), ("bytes.refused_or_served".into(), 1000), ("reveal.ok".into(), 500), ("reveal.err".into(), 500)];
     for k in 0..38 {
         // every per-type decoder seen on both sides of its minimum-length guard
         f.push((format!("type.{}.ok", PER_TYPE[k]), 1));
@@ -193,6 +194,53 @@ fn run(ctx: &mut Ctx) {
             let b = body_for_word(&mut ctx.rng, w, n);
             let o = Some(SOpts::from_index(ctx.rng.below(8) as u8));
             judge_msg(ctx, &b, o);
+        }
+        "reveal" => {
+            // reveal builds a private SliceReader, so its requests cannot be logged; what can be
+            // observed: (a) the debug build's unsafe-precondition checks, Miri and ASan abort the
+            // worker on an out-of-range unchecked read (the value sits in an exact-size block),
+            // (b) the result must equal the public per-type decoder run over the same decrypted
+            // payload through the contract readers (which do log and check every request)
+            let attr = PER_TYPE[ctx.rng.below(38) as usize];
+            let blocks = *ctx.rng.pick(&[1usize, 1, 2, 3]);
+            let vlen = 16 * blocks;
+            let secret = crate::gen::val::secret(&mut ctx.rng);
+            let mut rv = [0u8; 4];
+            rv.copy_from_slice(&ctx.rng.bytes(4));
+            let fmt_min = min_len(format_of(attr).unwrap());
+            // declared payload length on both sides of the kind's minimum and of the value size
+            let plen = match ctx.rng.below(6) {
+                0 => fmt_min.saturating_sub(1),
+                1 => fmt_min,
+                2 => fmt_min + 1,
+                3 => vlen - 2,
+                4 => ctx.rng.below(vlen as u64 - 1) as usize,
+                _ => (fmt_min + ctx.rng.below(4) as usize).min(vlen - 2),
+            }
+            .min(vlen - 2);
+            let declared = (plen + 6) as u16;
+            let mut plain = vec![(declared >> 8) as u8, declared as u8];
+            let body = if ctx.rng.bool() { wire::valid_payload(&mut ctx.rng, attr, vlen - 2) } else { ctx.rng.bytes(vlen - 2) };
+            plain.extend_from_slice(&body);
+            let value = crate::spec::hide::encrypt(attr, &plain, &secret, &rv);
+            let mut key = vec![b'r', attr as u8];
+            key.extend_from_slice(&value);
+            ctx.rep.case(&key, true);
+            let got = exec::reveal(exec::hidden_exact(attr, &value), &secret, rv);
+            ctx.rep.bucket(&format!("reveal.{}", got.class()));
+            let payload = &plain[2..2 + plen];
+            for rk in [Rk::ContractSlice, Rk::ContractVec] {
+                let run = exec::decode_type(attr, payload, rk).unwrap();
+                account(ctx, &format!("type{}", attr), &run, payload, None);
+                ctx.rep.bucket("readers.compared");
+                if !same_out(&got, &run.out) && !got.abnormal() {
+                    ctx.violate(
+                        format!("C02:reader-divergence:reveal-vs-type{}:{}-vs-{}", attr, got.class(), run.out.class()),
+                        format!("reveal (private SliceReader) gives {} but the per-type decoder over the same {} decrypted payload octets through {:?} gives {}", out_str(&got), plen, rk, out_str(&run.out)),
+                        J::obj(vec![("attribute_type", J::U(attr as u64)), ("hidden_value_hex", J::hex(&value)), ("secret_hex", J::hex(&secret)), ("random_vector_hex", J::hex(&rv)), ("decrypted_payload_hex", J::hex(payload))]),
+                    );
+                }
+            }
         }
         "big" => match wire::big_input(&mut ctx.rng) {
             (wire::Big::Msg(b), _) => {
